@@ -50,15 +50,34 @@ def sub_alg(hist, variant):
     return 'ed25519'
 
 
-def build(pool, pflags, subs, hasid, variant=0):
+def build(pool, pflags, subs, hasid, variant=0, ident=None):
+    """ident = (other flags, mode): a second identity 'Second Identity' exists; mode decides which identity carries pflags."""
     pgpy = import_pgpy()
-    k = pool.fresh('ed25519', 0)
+    palg = 'ed25519'
+    if ident is not None and ({'EC', 'ES'} & (set(pflags) | set(ident[0]))):
+        palg = 'rsa2048'                     # a primary that can also be encrypted to
+    k = pool.fresh(palg, 0)
     if not hasid:
         return k
-    uid = pgpy.PGPUID.new('Usage Test', email='u@x.org')
     from pgpy.constants import HashAlgorithm, SymmetricKeyAlgorithm, CompressionAlgorithm
-    k.add_uid(uid, usage=_flags(pflags), hashes=[HashAlgorithm.SHA256], ciphers=[SymmetricKeyAlgorithm.AES128],
-              compression=[CompressionAlgorithm.Uncompressed], created=K.ts(K.T0 + 1))
+    common = dict(hashes=[HashAlgorithm.SHA256], ciphers=[SymmetricKeyAlgorithm.AES128], compression=[CompressionAlgorithm.Uncompressed])
+    if ident is None:
+        k.add_uid(pgpy.PGPUID.new('Usage Test', email='u@x.org'), usage=_flags(pflags), created=K.ts(K.T0 + 1), **common)
+    else:
+        other, mode = ident
+        # which identity PGPy treats as the default is its business; find out, then give the flags accordingly
+        first, second = (pflags, other) if mode != 'named-other' else (other, pflags)
+        for attempt_ in (0, 1):
+            k = pool.fresh(palg, 0)
+            fa, fb = (first, second) if attempt_ == 0 else (second, first)
+            k.add_uid(pgpy.PGPUID.new('Alpha Identity', email='a@x.org'), usage=_flags(fa), created=K.ts(K.T0 + 1), **common)
+            k.add_uid(pgpy.PGPUID.new('Beta Identity', email='b@x.org'), usage=_flags(fb), created=K.ts(K.T0 + 2), **common)
+            default_is_alpha = k.userids[0].name == 'Alpha Identity'
+            if (attempt_ == 0) == default_is_alpha:
+                break
+        # now: default identity carries `first`, the other carries `second`
+        k._verif_default = k.userids[0].name
+        k._verif_other = [u.name for u in k.userids if u.name != k._verif_default][0]
     for n, hist in enumerate(subs):
         sk = pool.fresh(sub_alg(hist, variant + n), n + 1)
         k.add_subkey(sk, usage=_flags(hist[0]), created=K.ts(K.T0 + 20 + n))
@@ -77,14 +96,14 @@ def comp_index(key, keyid):
     return -3
 
 
-def do_op(pgpy, op, actor, priv, pub, other, enforce):
+def do_op(pgpy, op, actor, priv, pub, other, enforce, user=None, address=None):
     """returns (out, verified, info)"""
     actor._require_usage_flags = enforce
     for sk in actor.subkeys.values():
         sk._require_usage_flags = enforce
     try:
         if op == 'sign':
-            s = actor.sign('usage text', created=K.ts(K.T0 + 500))
+            s = actor.sign('usage text', created=K.ts(K.T0 + 500), **({'user': user} if user else {}))
             named = comp_index(priv, s.signer)
             ok = bool(pub.verify('usage text', s))
             fpr = s.signer_fingerprint
@@ -111,7 +130,7 @@ def do_op(pgpy, op, actor, priv, pub, other, enforce):
             return comp_index(priv, s.signer), bool(pub.verify(psub, s)), ''
         if op == 'encrypt':
             msg = pgpy.PGPMessage.new('usage secret', compression=pgpy.constants.CompressionAlgorithm.Uncompressed)
-            enc = actor.encrypt(msg)
+            enc = actor.encrypt(msg, **({'user': user} if user else {}))
             ids = list(enc.encrypters)
             if len(ids) != 1:
                 return -3, False, 'encrypters=%s' % ids
@@ -127,7 +146,10 @@ def do_op(pgpy, op, actor, priv, pub, other, enforce):
             # a message addressed to the first component that can be encrypted to at all
             msg = pgpy.PGPMessage.new('usage secret', compression=pgpy.constants.CompressionAlgorithm.Uncompressed)
             enc = None
-            for comp in [pub] + list(pub.subkeys.values()):
+            comps_ = [pub] + list(pub.subkeys.values())
+            if address is not None:
+                comps_ = [comps_[address]]
+            for comp in comps_:
                 try:
                     comp._require_usage_flags = False
                     if comp.key_algorithm.can_encrypt:
@@ -154,13 +176,14 @@ def run_scenarios(ctx, scen):
     ev = []
     by_struct = {}
     for sc, predicted, must in scen:
-        st = (tuple(sorted(sc['pflags'])), tuple(tuple(tuple(sorted(f)) for f in h) for h in sc['subs']), sc['hasid'])
+        st = (tuple(sorted(sc['pflags'])), tuple(tuple(tuple(sorted(f)) for f in h) for h in sc['subs']), sc['hasid'],
+              (tuple(sorted(sc['other'])), sc['mode']) if 'other' in sc else None)
         by_struct.setdefault(st, []).append((sc, predicted, must))
     skipped = 0
     for n, (st, items) in enumerate(sorted(by_struct.items(), key=lambda kv: repr(kv[0]))):
-        pflags, subs, hasid = st
+        pflags, subs, hasid, ident = st
         try:
-            priv = build(pool, pflags, subs, hasid, variant=n)
+            priv = build(pool, pflags, subs, hasid, variant=n, ident=ident)
         except Exception as ex:
             # PGPy refused to construct the key (e.g. signing flag on a subkey that cannot cross-sign): not a scenario
             skipped += len(items)
@@ -174,10 +197,23 @@ def run_scenarios(ctx, scen):
             locked.protect(PW, pgpy.constants.SymmetricKeyAlgorithm.AES128, pgpy.constants.HashAlgorithm.SHA256)
 
         def record(sc, predicted, actor):
-            out, verified, info = do_op(pgpy, sc['op'], actor, priv, pub, other, sc['enforce'])
+            user = None
+            if ident is not None:
+                user = {'default': None, 'named-default': priv._verif_default, 'named-other': priv._verif_other}[sc['mode']]
+            core = {k_: sc[k_] for k_ in ('pflags', 'subs', 'op', 'form', 'enforce', 'hasid')}
+            if sc['op'] == 'decrypt' and len(sc['subs']) >= 1:
+                done = False
+                for address in range(0, len(sc['subs']) + 1):
+                    out, verified, info = do_op(pgpy, sc['op'], actor, priv, pub, other, sc['enforce'], address=address)
+                    if out is not None:
+                        ev.append({'sc': core, 'out': out, 'verified': bool(verified), 'predicted': predicted, 'info': info, 'addressed': address})
+                        done = True
+                return done
+            out, verified, info = do_op(pgpy, sc['op'], actor, priv, pub, other, sc['enforce'], user=user)
             if out is None:
                 return False
-            ev.append({'sc': sc, 'out': out, 'verified': bool(verified), 'predicted': predicted, 'info': info})
+            ev.append({'sc': core, 'out': out, 'verified': bool(verified), 'predicted': predicted, 'info': info,
+                       'identity': (sc.get('mode'), sc.get('other')) if ident is not None else None})
             return True
         for sc, predicted, must in items:
             if sc['form'] == 'public':
@@ -211,11 +247,13 @@ def run(ctx):
     for s in scen:   # TLC prints sets as lists; normalise
         s[0]['pflags'] = sorted(s[0]['pflags'])
         s[0]['subs'] = [[sorted(f) for f in h] for h in s[0]['subs']]
+        if 'other' in s[0]:
+            s[0]['other'] = sorted(s[0]['other'])
     if ctx.quick:
         keep = []
         for s in scen:
             sc = s[0]
-            base = len(sc['subs']) <= 1 and all(len(h) == 1 for h in sc['subs']) and sc['form'] in ('public', 'private-unprotected')
+            base = len(sc['subs']) <= 1 and all(len(h) == 1 for h in sc['subs']) and sc['form'] in ('public', 'private-unprotected') and 'other' not in sc
             if not base or len(sc['pflags']) <= 1 or sc['pflags'] in (['EC', 'S'], ['A', 'C', 'EC', 'ES', 'S']) or ctx.rng.random() < 0.25:
                 keep.append(s)
         scen = keep
@@ -237,7 +275,7 @@ def run(ctx):
         e = ev[idx]
         sc = e['sc']
         hist = 'rebind' if any(len(h) > 1 for h in sc['subs']) else 'single'
-        key = 'op=%s form=%s enforce=%s hasid=%s nsubs=%d bindings=%s' % (sc['op'], sc['form'], sc['enforce'], sc['hasid'], len(sc['subs']), hist)
+        key = 'op=%s form=%s enforce=%s hasid=%s nsubs=%d bindings=%s%s%s' % (sc['op'], sc['form'], sc['enforce'], sc['hasid'], len(sc['subs']), hist, ' identity=%s' % e['identity'][0] if e.get('identity') else '', ' addressed=%s' % e['addressed'] if 'addressed' in e else '')
         ctx.violation(clause, key, {'event': e})
     return ctx.finish(level='model_checking',
                       rule='scenarios enumerated by TLC from Usage.tla (base: 32 primary flag sets x 0/1 subkey x 4 ops x enforce; forms x hasid; '
